@@ -5,6 +5,7 @@ package harness
 // by-construction refusals (document with id, bytes lacking action / value member).
 
 import (
+	"strings"
 	"testing"
 
 	"github.com/trustbloc/sidetree-go/pkg/document"
@@ -201,7 +202,14 @@ func TestC14_Constructors(t *testing.T) {
 			doc := genOrdinaryMembers(t, 1, 3)
 			var ops []interface{}
 			for i, n := 0, rapid.IntRange(1, 3).Draw(t, "nops"); i < n; i++ {
-				ops = append(ops, genOp6902(t, doc, true))
+				op := genOp6902(t, doc, true)
+				// valid input: well-formed JSON pointers (RFC 6901)
+				for _, f := range []string{"path", "from"} {
+					if v, ok := op[f].(string); ok && !strings.HasPrefix(v, "/") {
+						op[f] = "/name"
+					}
+				}
+				ops = append(ops, op)
 			}
 			want = ops
 			p, err = patch.NewJSONPatch(spell(t, ops, style))
